@@ -234,14 +234,16 @@ def run_property(pid, tier, only=None, jobs=None, write_evidence=True, cube_filt
 
   # 2. schedule cubes -------------------------------------------------------------------
   ctx = multiprocessing.get_context('fork')
-  pool = ctx.Pool(jobs, maxtasksperchild=1, initializer=worker.die_with_parent)
+  pool = ctx.Pool(jobs, maxtasksperchild=1)
 
   def _on_term(signum, frame):
     # an external time limit ends the check: never leave workers behind
-    try:
-      pool.terminate()
-    finally:
-      os._exit(143)  # pylint: disable=protected-access
+    for proc in list(getattr(pool, '_pool', []) or []):
+      try:
+        os.kill(proc.pid, 9)
+      except Exception:  # pylint: disable=broad-except
+        pass
+    os._exit(143)  # pylint: disable=protected-access
   import signal as _signal
   _signal.signal(_signal.SIGTERM, _on_term)
   _signal.signal(_signal.SIGINT, _on_term)
